@@ -2,11 +2,14 @@
 
 The real `Module.__pollThread` body runs as the single managed poll thread of a `vlib.sched.Scheduler` (virtual clock,
 1 tick = 2^-10 s, one tick per clock read) over 1..4 generated modules (optionally behind a shared io module), with
-scripted durations/failures of `doPoll` / `read_*` / `initialReads` / the start-up writes (in the start-up round and in
-the `writeInitParams` calls behind it), and an 'actor' thread changing intervals, switching
+scripted durations/failures of `doPoll` / `read_*` / `initialReads` / the write functions of the start values (called by
+`writeInitParams` in the start-up round and behind it; parameters of every kind of declaration — polled, `@nopoll`, handlers
+with nopoll, no read function — get start values), and an 'actor' thread changing intervals, switching
 fast polling, triggering and simulating reconnects.  A 'stopper' thread aborts the run at the virtual deadline.
 
-Recorded per run: every call the poll thread makes (start, module, function, duration), what the environment did
+Recorded per run: every function of a module the poll thread's own code calls — `doPoll` / `read_*` through `callPollFunc`,
+`initialReads`, and every `read_<p>` / `write_<p>` it calls directly, wherever (inside `writeInitParams`, in the round, in
+the loop) — as (start, module, function, duration); what the environment did
 (clock advances, durations, outcomes, time stamps set, actions of the actor) — the latter is fed to the Lean `turn`,
 which has to reproduce the call list; the call list itself is judged by the Lean monitors (Spec/C13.lean).
 Nothing about the property is decided here.
@@ -26,10 +29,13 @@ MAX_CALLS = 40000        # a run is also ended (like at the virtual deadline) af
 META = {
     'level_text': 'Theorems over the Lean model of the poll thread body (Timed/Poller.lean) and of the poll flag computation '
                   '(Timed/PollFlags.lean), all proved in full: errors_contained (successor state and call list of a turn independent '
-                  'of every outcome, every environment), late_writes_contained / errors_contained_after_round (the writeInitParams '
-                  'calls the repaired thread makes behind its start-up round - one per module, whatever any of them raises - and '
-                  'everything after them are independent of every outcome), nopoll_never_read (the monitor clause NoPollNeverRead for every trace of '
-                  'prologue + any number of turns, every environment), poll_flags_mark / polled_is_mayPoll (the flag the thread tests is '
+                  'of every outcome, every environment), startup_writes_call_no_read (writeInitParams, modelled call by call: exactly the '
+                  'write functions of the start values still in writeDict, in order, no read function and no poll function, independent '
+                  'of every outcome, nothing left afterwards), late_writes_contained / errors_contained_after_round (the writeInitParams '
+                  'calls the repaired thread makes behind its start-up round - for every module what it has still to write, whatever any '
+                  'write raises - and everything after them are independent of every outcome), nopoll_never_read (the monitor clause '
+                  'NoPollNeverRead for every trace of prologue - incl. every function writeInitParams calls - + any number of turns, every '
+                  'environment, whatever start values are pending), poll_flags_mark / polled_is_mayPoll (the flag the thread tests is '
                   'set exactly for parameters not marked as not polled, every kind of declaration), interval_change_triggers / _wakes / '
                   '_next_wakeup / _not_lost / _in_window (every environment, incl. actions between wait and clear), '
                   'interval_follows_commands (PollInfo.interval = the interval the module was told, every sequence of actions), '
@@ -53,8 +59,11 @@ META = {
                   'outside the model.',
     'trusted': [
         'virtual time: every clock read advances by >= 1 tick; durations are those the fake drivers sleep on the patched clock',
-        'instrumentation: mobj.callPollFunc / writeInitParams / triggerPoll.wait / triggerPoll.clear are wrapped on the instances (the originals run inside); '
-        'every writeInitParams call of the poll thread is a call of kind w, every initialReads (generated) a call of kind i',
+        'instrumentation: mobj.callPollFunc / every mobj.read_<p> and mobj.write_<p> / triggerPoll.wait / triggerPoll.clear are wrapped on the '
+        'instances (the originals run inside); a read_<p> / write_<p> entered by the poll thread while none of the generated bodies '
+        '(doPoll, initialReads, read and write functions = the module\'s own code) is active counts as called by the poller; code of the '
+        'poll thread that reached a read function by another route than the instance attribute (e.g. through the class) would not be seen',
+        'the start values to write (model: pending) are read off the real writeDict when the thread starts',
         'the recipe of the generated classes (decls_of: how each read function is declared; enablePoll) as reported to the judge',
         'BaseException (SystemExit, KeyboardInterrupt) is deliberately not contained by callPollFunc and is outside the statement',
     ],
@@ -63,6 +72,8 @@ META = {
         'accessLock, logging, the bodies of the read wrappers (only their poll flag is modelled)',
         'IOBase.callCallbacks (the reconnect callback trigger_all is invoked through it)',
         'actions of other threads after clear() returned and before the next clock read, and between modules of a sweep without a call (no slot in the model, not generated)',
+        'the write wrapper of HasAccessibles (validate, check functions, announceUpdate) around each write function: its time stamps reach the model as environment, a read function it called would be an event',
+        'write handlers (WriteHandler / CommonWriteHandler) and other threads taking entries out of writeDict while writeInitParams runs (the `value is not Done` test): not generated',
     ],
     'assumptions': ['slowinterval > 0 (datatype FloatRange(0.1, 120)); poll intervals >= 0',
                     'time stamps given to parameters are not in the future'],
@@ -1091,14 +1102,15 @@ def decl_catalogue():
     # and once more with the round broken off by a communication failure in the first module behind the io module, so that
     # the start values of the others are written by the `writeInitParams` calls behind the round
     import copy
-    for first_init in ([[0, 'ok']], [[4, 'comm']]):
+    for first_init, outcomes in (([[0, 'ok']], ['ok']), ([[4, 'comm']], ['ok']),
+                                 ([[0, 'ok']], ['ok', 'secop', 'zd', 'comm', 'silent', 'key'])):
         mods = copy.deepcopy([io, mod('handler'), mod('common'), plain])
         only_written = copy.deepcopy(plain)
         only_written['enabled'] = False
         mods.append(only_written)
         for k, m in enumerate(mods[1:]):
             for j, p in enumerate(m['params']):
-                p['w'] = [4, ['ok', 'secop', 'zd', 'comm', 'silent', 'key'][(j + k) % 6]]
+                p['w'] = [4, outcomes[(j + k) % len(outcomes)]]
         mods[1]['init'] = first_init
         cases.append({'mods': mods, 'actions': [], 'wactions': [], 'T': 30 * TICKS, 'start': 1000})
     return cases
@@ -1208,7 +1220,15 @@ def describe(obs, judge):
                 f'{last and (obs["order"][last["m"]], last["f"], last["o"])}; no module of the thread is polled afterwards')
     parts = []
     if not judge['nopoll']:
-        parts.append(f'the poller called a function it must not: {judge["bad_nopoll"]}')
+        def named(e):
+            m, f = e[1], e[2]
+            if isinstance(f, int) and m < len(obs['names']) and f < len(obs['names'][m]):
+                d = obs['model_mods'][m]['decls'][f]
+                return '%s.read_%s (declared: %s%s) at %d' % (obs['order'][m], obs['names'][m][f], d[0],
+                                                             ', nopoll' if d[1] or d[2] else '', e[0])
+            return '%s.%s at %d' % (obs['order'][m] if m < len(obs['order']) else m, f, e[0])
+        parts.append(f'the poller called a function it must not: {judge["bad_nopoll"]} = '
+                     + '; '.join(named(e) for e in judge['bad_nopoll']))
     if not judge['main_gap']:
         parts.append(f'main poll later than interval + one sweep (sweep={judge["sweep"]} ticks): '
                      f'[module, previous start, next start/end, limit] = {judge["bad_main"][:3]}')
